@@ -23,7 +23,9 @@ import (
 	"google.golang.org/protobuf/reflect/protodesc"
 	"google.golang.org/protobuf/reflect/protoreflect"
 	"google.golang.org/protobuf/reflect/protoregistry"
+	"google.golang.org/protobuf/types/descriptorpb"
 	"google.golang.org/protobuf/types/dynamicpb"
+	"google.golang.org/protobuf/types/pluginpb"
 
 	"verif/harness/corpus"
 	"verif/harness/internal/hx"
@@ -558,6 +560,7 @@ func streamGenerator(r *hx.Rng, cfs []*cfile, bs *builtSet, bindir, genRoot stri
 	d2 := filepath.Join(genRoot, "cwd2", "deeper")
 	hx.Must(os.MkdirAll(d1, 0o755))
 	hx.Must(os.MkdirAll(d2, 0o755))
+	single := map[string]map[string]string{} // variant -> output file name -> content, from the one-file requests
 	for _, f := range all {
 		for _, v := range allVariants {
 			if f.GoogleOnly && v.Runtime() != "google" {
@@ -565,6 +568,18 @@ func streamGenerator(r *hx.Rng, cfs []*cfile, bs *builtSet, bindir, genRoot stri
 			}
 			req := request(f, v.Param())
 			o1, e1, err1 := runPlugin(fm, req, d1, []string{"TZ=UTC"})
+			if single[v.Name()] == nil {
+				single[v.Name()] = map[string]string{}
+			}
+			if err1 == nil && e1 == "" && f.ParamV1 == "" {
+				for _, o := range o1 {
+					if _, dup := single[v.Name()][o.Name]; dup {
+						single[v.Name()][o.Name] = "\x00ambiguous" // finding G17: one name, two contents
+					} else {
+						single[v.Name()][o.Name] = o.Content
+					}
+				}
+			}
 			o2, e2, err2 := runPlugin(fm, req, d2, []string{"TZ=Asia/Tokyo", "LANG=C"})
 			cs := fmt.Sprintf("schema=%s variant=%s", f.Base, v.Name())
 			sink.OracleN++
@@ -612,6 +627,49 @@ func streamGenerator(r *hx.Rng, cfs []*cfile, bs *builtSet, bindir, genRoot stri
 			sink.Count("generated:" + v.Name())
 		}
 	}
+	// (2b) one request naming MANY files to generate (what `protoc a.proto b.proto ...` sends): every file must come
+	//      out exactly as when it is generated alone
+	for _, v := range allVariants {
+		var names []string
+		var descs []*descriptorpb.FileDescriptorProto
+		seen := map[string]bool{}
+		for _, f := range all {
+			if (f.GoogleOnly && v.Runtime() != "google") || f.ParamV1 != "" {
+				continue
+			}
+			if _, ok := single[v.Name()][f.Dir()+"/"+f.Base+".pb.fm.go"]; !ok && !v.PerMessage {
+				continue // does not generate alone either (reported above)
+			}
+			for _, dp := range f.AllDescriptors() {
+				if !seen[dp.GetName()] {
+					seen[dp.GetName()] = true
+					descs = append(descs, dp)
+				}
+			}
+			names = append(names, f.ProtoPath())
+		}
+		req := &pluginpb.CodeGeneratorRequest{FileToGenerate: names, Parameter: proto.String(v.Param()), ProtoFile: descs}
+		outs, e, err := runPlugin(fm, req, d1, nil)
+		sink.OracleN++
+		cs := fmt.Sprintf("variant=%s files=%d in one request", v.Name(), len(names))
+		if err != nil || e != "" {
+			if !(v.PerMessage && (strings.Contains(e, "twice") || strings.Contains(e, "duplicate"))) {
+				fail("the plug-in failed on a request naming several files, each of which it generates alone", cs, "output", fmt.Sprint(err, " ", e), "gen-multifile")
+			}
+			continue
+		}
+		for _, o := range outs {
+			want, ok := single[v.Name()][o.Name]
+			if !ok {
+				continue // (an output of a file that fails alone, e.g. a recorded name collision)
+			}
+			if want != o.Content && want != "\x00ambiguous" {
+				fail("a file generated as part of a multi-file request differs from the same file generated alone", cs+" output="+o.Name, "identical", firstDiff(want, o.Content), "gen-multifile")
+				break
+			}
+		}
+		sink.Count("multifile-request:" + v.Name())
+	}
 	// (3) option handling: documented spellings accepted, anything else rejected
 	f0 := all[0]
 	for _, pc := range []struct {
@@ -635,4 +693,14 @@ func streamGenerator(r *hx.Rng, cfs []*cfile, bs *builtSet, bindir, genRoot stri
 	}
 	os.RemoveAll(filepath.Join(genRoot, "cwd1"))
 	os.RemoveAll(filepath.Join(genRoot, "cwd2"))
+}
+
+func firstDiff(a, b string) string {
+	la, lb := strings.Split(a, "\n"), strings.Split(b, "\n")
+	for i := 0; i < len(la) && i < len(lb); i++ {
+		if la[i] != lb[i] {
+			return fmt.Sprintf("line %d: %q vs %q", i+1, la[i], lb[i])
+		}
+	}
+	return fmt.Sprintf("%d vs %d lines", len(la), len(lb))
 }
